@@ -444,6 +444,17 @@ type lmFrame struct {
 	parent *lmFrame
 	site   *ssa.Call
 	depth  int
+	// loader frames: the local node being filled and returned; only returns
+	// that hand out that node count as success returns of the frame.
+	seed *ssa.Alloc
+}
+
+// counts: does return r count as a success return of frame f?
+func (f *lmFrame) counts(r *ssa.Return) bool {
+	if f.seed == nil {
+		return true
+	}
+	return len(r.Results) > 0 && ir.ResolveCell(ir.Strip(r.Results[0])) == ssa.Value(f.seed)
 }
 
 type lmKey struct {
@@ -515,6 +526,9 @@ type lmAn struct {
 	nodeCalls  []*ssa.Call
 	opaque     []string // helpers without error result that receive classified values
 	frames     int
+	// preAcc: count differences a node can still have when the validator sees
+	// it, given what the load path already rejected (axis -> accepted values).
+	preAcc map[int][]int64
 }
 
 func (an *lmAn) cl(v ssa.Value, fr *lmFrame) *lmVal {
@@ -548,6 +562,10 @@ func (an *lmAn) cl0(v ssa.Value, fr *lmFrame) *lmVal {
 	case *ssa.Parameter:
 		if e := fr.env[x]; e != nil {
 			return e
+		}
+	case *ssa.Alloc:
+		if fr.seed != nil && x == fr.seed {
+			return &lmVal{k: lmNode}
 		}
 	case *ssa.Const:
 		if x.Value == nil {
@@ -894,7 +912,7 @@ func lmRequired(clause int, x int64) bool {
 	switch clause {
 	case 1:
 		return x != 0
-	case 2:
+	case 2, 5:
 		return x != 1
 	case 3:
 		return x >= 0
@@ -925,7 +943,7 @@ func (an *lmAn) match1(X, Y *lmVal, op token.Token) (*lmMatch, int, string) {
 		case X.field == "Link" && Y.field == "Key":
 			return &lmMatch{clause: 2, atom: lmAtom{op, d}}, 0, ""
 		case X.field == "Link" && Y.field == "Value":
-			return nil, 2, "und:compares len(Link) with len(Value); implies the clause only together with len(Key)=len(Value)"
+			return &lmMatch{clause: 5, atom: lmAtom{op, d}}, 0, ""
 		}
 	case X.k == lmCmp && Y.k == lmConst:
 		a, b := X.a, X.b
@@ -1282,16 +1300,16 @@ func (an *lmAn) gate(cd *lmCand) {
 					}
 					return to == from.Succs[0]
 				}
-				if by, w := lpAvoidReachesSuccess(P, L.stay, pivot, L.hdr, L.blocks, skip); by {
+				if by, w := lpAvoidReachesSuccess(P, L.stay, pivot, L.hdr, L.blocks, skip, nil); by {
 					_ = w
 					lmWorse(cd, lmBad, "an iteration of the loop over the keys can reach the next iteration without executing the test (guard, continue or branch skips it)")
 				}
-				if by, w := lpAvoidReachesSuccess(P, f.fn.Blocks[0], L.hdr, nil, nil, an.nodeErrEdge); by {
+				if by, w := lpAvoidReachesSuccess(P, f.fn.Blocks[0], L.hdr, nil, nil, an.infeasible(f), f.counts); by {
 					lmWorse(cd, lmBad, "the loop over the keys can be bypassed: "+w+" is reachable without entering it")
 				}
 			}
 		} else {
-			if by, w := lpAvoidReachesSuccess(P, f.fn.Blocks[0], pivot, nil, nil, an.nodeErrEdge); by {
+			if by, w := lpAvoidReachesSuccess(P, f.fn.Blocks[0], pivot, nil, nil, an.infeasible(f), f.counts); by {
 				lmWorse(cd, lmBad, fmt.Sprintf("the test can be bypassed in %s: %s is reachable without executing it", ir.FuncName(f.fn), w))
 			}
 		}
@@ -1392,6 +1410,23 @@ func runROOTCLAUSES(c *Ctx) {
 		an.walk(fr)
 		names = append(names, ir.FuncName(v.fn))
 	}
+	// what the load path has already rejected when the validator sees the node
+	var loader *lmLoader
+	loaderOK := len(an.nodeCalls) > 0
+	for _, nc := range an.nodeCalls {
+		l := an.loaderOf(nc)
+		if k, _ := lpPropagates(P, nc); k != lpErrNonNil || len(l.opaque) > 0 {
+			loaderOK = false
+		}
+		if loader == nil {
+			loader = l
+		} else {
+			loaderOK = false // two loads of the root: not combined
+		}
+	}
+	if loaderOK {
+		an.preAcc = lmDeriveAccepted(loader.good)
+	}
 	for _, cd := range an.cands {
 		an.gate(cd)
 	}
@@ -1443,6 +1478,64 @@ func runROOTCLAUSES(c *Ctx) {
 				}
 			}
 			return out
+		}
+		if clause <= 2 {
+			// count clauses: enforced by the validator, by the load path, or jointly
+			all := map[int][]lmAtom{}
+			allU := map[int][]lmAtom{}
+			var ds []string
+			for _, cd := range an.cands {
+				if cd.clause != 1 && cd.clause != 2 && cd.clause != 5 {
+					continue
+				}
+				if cd.status == lmGood {
+					all[cd.clause] = append(all[cd.clause], cd.atom)
+					ds = append(ds, "`"+cd.desc+"` at "+P.InstrPos(cd.iff))
+				}
+				if cd.status != lmBad {
+					allU[cd.clause] = append(allU[cd.clause], cd.atom)
+				}
+			}
+			if vok, _ := lmCountClauseHolds(clause, all); vok {
+				c.OK(P.InstrPos(lmGood0(an.cands, clause, V, P)), construct+" in "+vname, "rejecting branch(es) "+strings.Join(ds, ", ")+": unavoidable, reach only error returns", false)
+				continue
+			}
+			if loader != nil {
+				for ax, a := range loader.good {
+					allU[ax] = append(allU[ax], a...)
+					if loaderOK {
+						all[ax] = append(all[ax], a...)
+					}
+				}
+				for ax, a := range loader.und {
+					allU[ax] = append(allU[ax], a...)
+				}
+			}
+			if lok, _ := lmCountClauseHolds(clause, all); lok {
+				why := "rejected while the top node is obtained: " + strings.Join(loader.descs, ", ") + " (unavoidable before the decoded node is returned, error passed on to LoadMast)"
+				if len(ds) > 0 {
+					why += "; validator: " + strings.Join(ds, ", ")
+				}
+				if len(loader.exempt) > 0 {
+					why += "; not decoded, hence exempt: " + strings.Join(loader.exempt, "; ")
+				}
+				c.OK(P.InstrPos(an.nodeCalls[0]), construct+" on the LoadMast path", why, false)
+				continue
+			}
+			if uok, _ := lmCountClauseHolds(clause, allU); uok {
+				var ws []string
+				for _, cd := range und {
+					ws = append(ws, "`"+cd.desc+"`: "+cd.why)
+				}
+				if loader != nil && !loaderOK {
+					ws = append(ws, "the load path has the clause but cannot be followed completely: "+strings.Join(loader.opaque, "; "))
+				}
+				if loader != nil && len(loader.und) > 0 {
+					ws = append(ws, "a branch of the load path could not be decided")
+				}
+				c.Undecided(V, P.Pos(V.Pos()), construct, "cannot decide clause "+name+": "+strings.Join(ws, "; "))
+				continue
+			}
 		}
 		if ok, _ := lmCovered(clause, atoms(good)); ok {
 			var ds, notes []string
@@ -1531,6 +1624,9 @@ func runROOTCLAUSES(c *Ctx) {
 			ws = append(ws, "the rejecting test "+strings.Join(ds, ", ")+" is too weak: "+lmUncoveredText(clause, x))
 		} else {
 			ws = append(ws, "no unavoidable branch of "+vname+" (or its callees) rejects "+name+": "+lmUncoveredText(clause, x))
+			if clause <= 2 {
+				ws = append(ws, "the load path that hands the top node to the validator does not reject it either")
+			}
 		}
 		// bad candidates whose relation would have helped
 		shown := 0
@@ -1806,6 +1902,7 @@ func runNOPANICLOAD(c *Ctx) {
 	}
 	for _, fn := range fns {
 		f := pr.of(fn)
+		lmCheckConstIndexes(c, f, fn, lbChain(prev, fn))
 		for _, b := range fn.Blocks {
 			if len(b.Instrs) == 0 {
 				continue
@@ -1851,4 +1948,548 @@ func runNOPANICLOAD(c *Ctx) {
 			}
 		}
 	}
+}
+
+// ---- ROOTCLAUSES: clauses enforced while the top node is obtained ----------------
+//
+// A C19 clause holds on the LoadMast path when it is enforced by the validator
+// OR by every path through which the load primitive hands out the top node
+// (today: loadPersisted decodes into a local node, runs checkLoadedNode on it
+// and returns its error). The three count differences are linked:
+// (Link−Value) = (Key−Value) + (Link−Key), so two of them fix the third.
+
+const lmWindow = 12
+
+// lmAccepted: the values of a count difference not rejected by atoms, and
+// whether that set is finite (everything far away is rejected).
+func lmAccepted(atoms []lmAtom) (vals []int64, finite bool) {
+	rejected := func(x int64) bool {
+		for _, a := range atoms {
+			if a.holds(x) {
+				return true
+			}
+		}
+		return false
+	}
+	if !rejected(-1000000) || !rejected(1000000) {
+		return nil, false
+	}
+	lo, hi := int64(-lmWindow), int64(lmWindow)
+	for _, a := range atoms {
+		if a.d-2 < lo {
+			lo = a.d - 2
+		}
+		if a.d+2 > hi {
+			hi = a.d + 2
+		}
+	}
+	if hi-lo > 4096 {
+		return nil, false
+	}
+	for x := lo; x <= hi; x++ {
+		if !rejected(x) {
+			vals = append(vals, x)
+		}
+	}
+	return vals, true
+}
+
+// lmDeriveAccepted closes the accepted sets of axes 1 (Key−Value), 2 (Link−Key)
+// and 5 (Link−Value) under D5 = D1 + D2.
+func lmDeriveAccepted(atoms map[int][]lmAtom) map[int][]int64 {
+	acc := map[int][]int64{}
+	fin := map[int]bool{}
+	for _, ax := range []int{1, 2, 5} {
+		acc[ax], fin[ax] = lmAccepted(atoms[ax])
+	}
+	inter := func(ax int, cand []int64) {
+		if !fin[ax] {
+			acc[ax], fin[ax] = cand, true
+			return
+		}
+		var out []int64
+		for _, x := range acc[ax] {
+			for _, y := range cand {
+				if x == y {
+					out = append(out, x)
+					break
+				}
+			}
+		}
+		acc[ax] = out
+	}
+	comb := func(a, b []int64, sign int64) []int64 {
+		seen := map[int64]bool{}
+		var out []int64
+		for _, x := range a {
+			for _, y := range b {
+				v := x + sign*y
+				if !seen[v] {
+					seen[v] = true
+					out = append(out, v)
+				}
+			}
+		}
+		return out
+	}
+	for i := 0; i < 2; i++ {
+		if fin[5] && fin[2] {
+			inter(1, comb(acc[5], acc[2], -1))
+		}
+		if fin[5] && fin[1] {
+			inter(2, comb(acc[5], acc[1], -1))
+		}
+		if fin[1] && fin[2] {
+			inter(5, comb(acc[1], acc[2], 1))
+		}
+	}
+	out := map[int][]int64{}
+	for _, ax := range []int{1, 2, 5} {
+		if fin[ax] {
+			if acc[ax] == nil {
+				acc[ax] = []int64{}
+			}
+			out[ax] = acc[ax]
+		}
+	}
+	return out
+}
+
+// lmCountClauseHolds: clause 1 (Key−Value must be 0) or 2 (Link−Key must be 1)
+// given all rejecting atoms on the path; bad is an accepted wrong value.
+func lmCountClauseHolds(clause int, atoms map[int][]lmAtom) (ok bool, bad int64) {
+	acc, fin := lmDeriveAccepted(atoms)[clause]
+	if !fin {
+		_, x := lmCovered(clause, atoms[clause])
+		return false, x
+	}
+	for _, x := range acc {
+		if lmRequired(clause, x) {
+			return false, x
+		}
+	}
+	return true, 0
+}
+
+// infeasible: edges of frame f that cannot be taken on the LoadMast path: the
+// root node failed to load (judged separately), or the branch asks for a count
+// difference the load path has already rejected.
+func (an *lmAn) infeasible(f *lmFrame) func(from, to *ssa.BasicBlock) bool {
+	return func(from, to *ssa.BasicBlock) bool {
+		if an.nodeErrEdge(from, to) {
+			return true
+		}
+		if an.preAcc == nil || len(from.Instrs) == 0 || len(from.Succs) != 2 || from.Succs[0] == from.Succs[1] {
+			return false
+		}
+		iff, ok := from.Instrs[len(from.Instrs)-1].(*ssa.If)
+		if !ok {
+			return false
+		}
+		A, B, op, ok := an.rel(iff.Cond, f)
+		if !ok {
+			return false
+		}
+		m, _, _ := an.match(A, B, op)
+		if m == nil || (m.clause != 1 && m.clause != 2 && m.clause != 5) {
+			return false
+		}
+		acc, fin := an.preAcc[m.clause]
+		if !fin {
+			return false
+		}
+		at := m.atom
+		if to == from.Succs[1] {
+			at.op = lpNegOp(at.op)
+		}
+		for _, x := range acc {
+			if at.holds(x) {
+				return false
+			}
+		}
+		return true
+	}
+}
+
+// lmLoader is what the load path enforces on the node before the validator
+// sees it.
+type lmLoader struct {
+	good   map[int][]lmAtom // rejecting atoms proved on every decoding path
+	und    map[int][]lmAtom // atoms of branches that could not be decided
+	descs  []string         // the branches, for the obligation text
+	exempt []string         // node sources that are not decoded here
+	opaque []string         // node sources the rule cannot follow: nothing is assumed
+	seeded int
+}
+
+// loaderOf analyses the load primitive called at nc (and the loaders it
+// forwards to): every return that hands out a node is either exempt (an
+// in-memory link, a cached node), forwarded from another loader whose error it
+// passes on, or a local node the function decoded — then the count clauses are
+// looked for between the decoding and that return.
+func (an *lmAn) loaderOf(nc *ssa.Call) *lmLoader {
+	L := &lmLoader{good: map[int][]lmAtom{}, und: map[int][]lmAtom{}}
+	seen := map[*ssa.Function]bool{}
+	var visit func(g *ssa.Function, depth int)
+	visit = func(g *ssa.Function, depth int) {
+		if seen[g] {
+			return
+		}
+		seen[g] = true
+		if depth > 3 || lpMastParam(g) < 0 {
+			L.opaque = append(L.opaque, ir.FuncName(g))
+			return
+		}
+		ei := ir.ErrorResultIndex(g.Signature)
+		for _, r := range ir.Returns(g) {
+			if ei < 0 || len(r.Results) < 2 || lpErrClass(r.Results[ei], r.Block(), 0) == lpErrNonNil {
+				continue
+			}
+			r0 := ir.ResolveCell(ir.Strip(r.Results[0]))
+			if ir.IsNilConst(r0) {
+				continue
+			}
+			pos := an.c.P.InstrPos(r)
+			switch x := r0.(type) {
+			case *ssa.Alloc:
+				fr := &lmFrame{fn: g, env: map[*ssa.Parameter]*lmVal{g.Params[lpMastParam(g)]: {k: lmMast}}, seed: x}
+				sub := &lmAn{c: an.c, memo: map[lmKey]*lmVal{}, loops: map[lmKey]*lmLoop{}, near: map[int][]string{}, nearUnd: map[int][]string{}, nearPos: map[int]string{}}
+				sub.walk(fr)
+				L.seeded++
+				if L.seeded > 1 {
+					L.opaque = append(L.opaque, "a second decoding path in "+ir.FuncName(g))
+					continue
+				}
+				for _, cd := range sub.cands {
+					sub.gate(cd)
+					if cd.clause != 1 && cd.clause != 2 && cd.clause != 5 {
+						continue
+					}
+					switch cd.status {
+					case lmGood:
+						L.good[cd.clause] = append(L.good[cd.clause], cd.atom)
+						L.descs = append(L.descs, fmt.Sprintf("`%s` in %s at %s", cd.desc, ir.FuncName(cd.fr.fn), an.c.P.InstrPos(cd.iff)))
+					case lmUnd:
+						L.und[cd.clause] = append(L.und[cd.clause], cd.atom)
+					}
+				}
+			case *ssa.Extract:
+				switch t := x.Tuple.(type) {
+				case *ssa.Call:
+					h := ir.Callee(t.Call)
+					if x.Index != 0 || h == nil || !lmLoadLike(an.c, h) {
+						L.opaque = append(L.opaque, "node returned at "+pos)
+						continue
+					}
+					fwd := false
+					if ex, ok := ir.ResolveCell(r.Results[ei]).(*ssa.Extract); ok && ex.Tuple == ssa.Value(t) && ex.Index == ei {
+						fwd = true
+					}
+					if !fwd {
+						if k, _ := lpPropagates(an.c.P, t); k != lpErrNonNil {
+							L.opaque = append(L.opaque, "error of "+ir.FuncName(h)+" not passed on at "+pos)
+							continue
+						}
+					}
+					visit(h, depth+1)
+				case *ssa.TypeAssert:
+					L.assertSource(an, t, pos)
+				default:
+					L.opaque = append(L.opaque, "node returned at "+pos)
+				}
+			case *ssa.TypeAssert:
+				L.assertSource(an, x, pos)
+			default:
+				L.opaque = append(L.opaque, "node returned at "+pos)
+			}
+		}
+	}
+	if g := ir.Callee(nc.Call); g != nil {
+		visit(g, 0)
+	}
+	return L
+}
+
+// assertSource classifies a node obtained by a type assertion: on a link
+// parameter (an in-memory node the library built itself) or on the result of
+// NodeCache.Get (only nodes that passed the decoding path, or that flush
+// wrote, are ever added to the cache).
+func (L *lmLoader) assertSource(an *lmAn, t *ssa.TypeAssert, pos string) {
+	src := ir.ResolveCell(t.X)
+	if p, ok := src.(*ssa.Parameter); ok && types.IsInterface(p.Type()) {
+		L.exempt = append(L.exempt, "in-memory link (built by the library, not decoded)")
+		return
+	}
+	if ex, ok := src.(*ssa.Extract); ok {
+		if call, ok := ex.Tuple.(*ssa.Call); ok && an.c.Facts.External(call) == "NodeCache.Get" {
+			L.exempt = append(L.exempt, "cached node (entered the cache after the same checks, or written by flush)")
+			return
+		}
+	}
+	L.opaque = append(L.opaque, "node obtained by a type assertion at "+pos)
+}
+
+// good0 picks an instruction to position the obligation of a count clause.
+func lmGood0(cands []*lmCand, clause int, V *ssa.Function, P *ir.Program) ssa.Instruction {
+	for _, cd := range cands {
+		if cd.status == lmGood && cd.clause == clause {
+			return cd.iff
+		}
+	}
+	for _, cd := range cands {
+		if cd.status == lmGood && (cd.clause == 1 || cd.clause == 2 || cd.clause == 5) {
+			return cd.iff
+		}
+	}
+	return V.Blocks[0].Instrs[0]
+}
+
+// ---- NOPANICLOAD: constant indexes into a node's lists ---------------------------
+//
+// `node.Key[1]` panics with index out of range on a node with fewer entries.
+// On the load path (where the node is untrusted data) a constant index k into
+// Key, Value or Link of a node must be preceded, on every path, by a test that
+// the same list holds more than k elements; a list the function itself has
+// just made with a constant length > k is discharged as well.
+
+// lmNodeList: v is the list loaded from field Key/Value/Link of a node; it
+// returns the field, the symbolic address of the field and the load.
+func lmNodeList(v ssa.Value) (field, addr string, ld *ssa.UnOp, ok bool) {
+	u, isU := ir.ResolveCell(v).(*ssa.UnOp)
+	if !isU || u.Op != token.MUL {
+		return "", "", nil, false
+	}
+	fa, isF := u.X.(*ssa.FieldAddr)
+	if !isF || !ir.IsPtrToNamed(fa.X.Type(), "Node") {
+		return "", "", nil, false
+	}
+	f := ir.FieldName(fa.X.Type(), fa.Field)
+	if f != "Key" && f != "Value" && f != "Link" {
+		return "", "", nil, false
+	}
+	return f, ir.Sym(fa), u, true
+}
+
+func lmConstInt(v ssa.Value) (int64, bool) {
+	c, ok := v.(*ssa.Const)
+	if !ok || c.Value == nil || c.Value.Kind() != constant.Int {
+		return 0, false
+	}
+	return constant.Int64Val(c.Value)
+}
+
+// lmLenOf: v is len(list at addr) + off.
+func lmLenOf(v ssa.Value, addr string) (off int64, ok bool) {
+	v = ir.ResolveCell(v)
+	if b, isB := v.(*ssa.BinOp); isB && (b.Op == token.ADD || b.Op == token.SUB) {
+		if n, isC := lmConstInt(b.Y); isC {
+			if o, ok := lmLenOf(b.X, addr); ok {
+				if b.Op == token.SUB {
+					n = -n
+				}
+				return o + n, true
+			}
+		}
+		return 0, false
+	}
+	call, isC := v.(*ssa.Call)
+	if !isC {
+		return 0, false
+	}
+	if bi, isB := call.Call.Value.(*ssa.Builtin); !isB || bi.Name() != "len" || len(call.Call.Args) != 1 {
+		return 0, false
+	}
+	_, a, _, isL := lmNodeList(call.Call.Args[0])
+	return 0, isL && a == addr
+}
+
+// lmLenLowerBound: the least length of the list at addr implied by fact fc
+// (−1: no lower bound follows; −2: the fact compares the length with something
+// that is not a constant; mentions: the fact talks about that length).
+func lmLenLowerBound(fc ir.Fact, addr string) (lb int64, mentions bool) {
+	cond, truth := fc.Cond, fc.Truth
+	for {
+		u, ok := cond.(*ssa.UnOp)
+		if !ok || u.Op != token.NOT {
+			break
+		}
+		truth = !truth
+		cond = u.X
+	}
+	bin, ok := cond.(*ssa.BinOp)
+	if !ok || lpNegOp(bin.Op) == token.ILLEGAL {
+		return -1, false
+	}
+	op := bin.Op
+	if !truth {
+		op = lpNegOp(op)
+	}
+	var off, k int64
+	if o, isL := lmLenOf(bin.X, addr); isL {
+		n, isC := lmConstInt(bin.Y)
+		if !isC {
+			// len(L)+o op len(M)+p with len(M) ≥ 0: a lower bound follows for =, >, ≥
+			if p, isM := lmAnyLen(bin.Y); isM {
+				switch op {
+				case token.EQL, token.GEQ:
+					return p - o, true
+				case token.GTR:
+					return p - o + 1, true
+				}
+				return -1, true
+			}
+			return -2, true
+		}
+		off, k = o, n
+	} else if o, isL := lmLenOf(bin.Y, addr); isL {
+		n, isC := lmConstInt(bin.X)
+		if !isC {
+			if p, isM := lmAnyLen(bin.X); isM {
+				switch lpFlipOp(op) {
+				case token.EQL, token.GEQ:
+					return p - o, true
+				case token.GTR:
+					return p - o + 1, true
+				}
+				return -1, true
+			}
+			return -2, true
+		}
+		off, k, op = o, n, lpFlipOp(op)
+	} else {
+		return -1, false
+	}
+	// len + off op k  ⇒  len op k-off
+	t := k - off
+	switch op {
+	case token.GTR:
+		return t + 1, true
+	case token.GEQ, token.EQL:
+		return t, true
+	case token.NEQ:
+		if t == 0 {
+			return 1, true
+		}
+	}
+	return -1, true
+}
+
+// lmCheckConstIndexes examines the constant indexes into node lists in the
+// live blocks of fn.
+func lmCheckConstIndexes(c *Ctx, f *lpFunc, fn *ssa.Function, chain []string) {
+	P := c.P
+	for _, b := range fn.Blocks {
+		if !f.live[b] {
+			continue
+		}
+		for _, ins := range b.Instrs {
+			ia, ok := ins.(*ssa.IndexAddr)
+			if !ok {
+				continue
+			}
+			k, isC := lmConstInt(ia.Index)
+			if !isC || k < 0 {
+				continue
+			}
+			field, addr, ld, isL := lmNodeList(ia.X)
+			if !isL {
+				continue
+			}
+			pos := P.InstrPos(ia)
+			what := fmt.Sprintf("constant index %s[%d] in %s", field, k, ir.FuncName(fn))
+			construct := fmt.Sprintf("index %s[%d] without len(%s)>%d", field, k, field, k)
+			// stores to the same field in this function
+			var stores []*ssa.Store
+			for _, bb := range fn.Blocks {
+				for _, x := range bb.Instrs {
+					if st, ok := x.(*ssa.Store); ok {
+						if fa, ok := st.Addr.(*ssa.FieldAddr); ok && ir.Sym(fa) == addr {
+							stores = append(stores, st)
+						}
+					}
+				}
+			}
+			// (1) the function made the list itself, long enough
+			made := false
+			for _, st := range stores {
+				ms, ok := st.Val.(*ssa.MakeSlice)
+				if !ok || !ir.Before(st, ld) {
+					continue
+				}
+				if n, ok := lmConstInt(ms.Len); ok && n > k {
+					made = true
+					for _, o := range stores {
+						if o != st && !ir.Before(o, st) {
+							made = false
+						}
+					}
+				}
+			}
+			if made {
+				c.OK(pos, what, "the list was made in this function with a constant length > "+fmt.Sprint(k), true)
+				continue
+			}
+			// (2) a dominating test of the length
+			best, mentions := int64(-1), false
+			var via *ssa.BasicBlock
+			for _, fc := range ir.FactsAt(b) {
+				lb, m := lmLenLowerBound(fc, addr)
+				mentions = mentions || (m && lb == -2)
+				if lb > best {
+					best, via = lb, fc.From
+				}
+			}
+			if best >= k+1 {
+				clobber := false
+				for _, st := range stores {
+					iff := via.Instrs[len(via.Instrs)-1]
+					if !ir.Before(st, iff) {
+						clobber = true
+					}
+				}
+				if !clobber {
+					c.OK(pos, what, fmt.Sprintf("dominated by a test that len(%s) ≥ %d", field, best), false)
+					continue
+				}
+				c.Undecided(fn, pos, construct, fmt.Sprintf("%s is reassigned between the length test and the index", field), "chain: "+fmtChain(chain))
+				continue
+			}
+			if mentions {
+				c.Undecided(fn, pos, construct, fmt.Sprintf("a dominating test compares len(%s) with a non-constant; whether it implies len(%s) > %d is not decided", field, field, k), "chain: "+fmtChain(chain))
+				continue
+			}
+			c.Violation(fn, pos, construct,
+				fmt.Sprintf("%s reads %s[%d] of a node on the load path without a dominating test that the node has more than %d %s entries (tests on the path guarantee only len(%s) ≥ %d): a shorter node makes LoadMast panic (index out of range) instead of returning an error; reachable via %s",
+					ir.FuncName(fn), field, k, k, field, field, lmMax0(best), fmtChain(chain)), "chain: "+fmtChain(chain))
+		}
+	}
+}
+
+func lmMax0(n int64) int64 {
+	if n < 0 {
+		return 0
+	}
+	return n
+}
+
+// lmAnyLen: v is len(some slice) + off.
+func lmAnyLen(v ssa.Value) (off int64, ok bool) {
+	v = ir.ResolveCell(v)
+	if b, isB := v.(*ssa.BinOp); isB && (b.Op == token.ADD || b.Op == token.SUB) {
+		if n, isC := lmConstInt(b.Y); isC {
+			if o, ok := lmAnyLen(b.X); ok {
+				if b.Op == token.SUB {
+					n = -n
+				}
+				return o + n, true
+			}
+		}
+		return 0, false
+	}
+	call, isC := v.(*ssa.Call)
+	if !isC {
+		return 0, false
+	}
+	bi, isB := call.Call.Value.(*ssa.Builtin)
+	return 0, isB && bi.Name() == "len" && len(call.Call.Args) == 1
 }
